@@ -461,16 +461,14 @@ func ruleClientConfig(c *RC) *RuleResult {
 		r.unresolved("consensus.New / checkConfig")
 		return r
 	}
+	// required: the function-valued options checkConfig insists on (non-nil on every accepting path), minus those
+	// defaultConfig already provides
 	required := map[string]bool{}
-	for _, st := range cc.Decl.Body.List {
-		if ifs, ok := st.(*ast.IfStmt); ok {
-			if be, ok := ifs.Cond.(*ast.BinaryExpr); ok && be.Op.String() == "==" {
-				if id, ok := be.Y.(*ast.Ident); ok && id.Name == "nil" {
-					if sel, ok := be.X.(*ast.SelectorExpr); ok {
-						required[sel.Sel.Name] = true
-					}
-				}
-			}
+	nonNil, _ := c.configFacts()
+	defaults := c.configDefaults()
+	for f := range nonNil {
+		if !defaults[f] {
+			required[f] = true
 		}
 	}
 	supplied := map[string]string{}
